@@ -56,7 +56,7 @@ def _arg_regex(a, obj, name, null_iface, dialect='new'):
     pre = re.escape(name + '=') if name is not None else ''
     if k in ('int', 'uint'):
         v = a[1] & 0xffffffff if k == 'uint' else a[1]
-        return pre + re.escape(str(v)) + r'(?::[^,()]*)?'
+        return pre + re.escape(str(v)) + r'(?::[^,]*)?'
     if k == 'fixed':
         if dialect == 'old':   # %f keeps six decimals; the tool shows what the log says
             return pre + re.escape(str(float('%f' % (a[1] / 256.0))))
